@@ -148,11 +148,11 @@ class Lens:
 
 def cases_system(tier):
     out = []
-    Ks = [1, 2, 3] if tier == 'quick' else [1, 2, 3, 4, 5]
+    Ks = [1, 2, 3] if tier == 'quick' else [1, 2, 3, 4]
     for K in Ks:
         stops = sorted({1, (K + 1) // 2, K})
         for s in stops:
-            for obj in (['inf', 'finite'] if (K <= 2 or tier == 'thorough') else ['inf']):
+            for obj in (['inf', 'finite'] if (K <= 2 or (tier == 'thorough' and K <= 3)) else ['inf']):
                 out.append(dict(K=K, stop=s, obj=obj, mirrors=()))
     # mirrors: single mirror, mirror followed by a refracting surface pair, two mirrors (Cassegrain-like)
     out.append(dict(K=1, stop=1, obj='inf', mirrors=(1,)))
@@ -179,7 +179,7 @@ def _oblige_val(ctx, name, lib, oracle, degenerate=False):
 
 
 @harness('C04', 'H3_cardinal', cases=cases_system, funcs=FUNCS,
-         bounds='K<=3 real surfaces (thorough 5), all R,t,n symbolic (n in [1,4]), stop first/middle/last, '
+         bounds='K<=3 real surfaces (thorough 4), all R,t,n symbolic (n in [1,4]), stop first/middle/last, '
                 'object at infinity or finite, mirrors at enumerated positions',
          doc='f1 f2 F1 F2 P1 P2 N1 N2 of the real Paraxial class = ABCD matrix formulas')
 def h3_cardinal(ctx, K, stop, obj, mirrors):
